@@ -6,6 +6,9 @@ import (
 	"math/rand"
 	"os"
 	"path/filepath"
+	"regexp"
+	"strconv"
+	"strings"
 
 	"github.com/kaitai-io/kaitai_struct_go_runtime/kaitai"
 	"github.com/thomasjungblut/go-sstables/kaitai/gokaitai"
@@ -29,6 +32,8 @@ type c20Case struct {
 	KErr    string   `json:"kerr,omitempty"`
 	Version uint32   `json:"version"`
 	KComp   int      `json:"kcomp"`
+	EnumKsy bool     `json:"enum_ksy"` // the compression code of the file is named by the schema's enum / by the generated Go constants
+	EnumGo  bool     `json:"enum_go"`
 	KRecs   []ksRec  `json:"krecs"`
 	Native  []recOut `json:"native"`
 	Fatal   string   `json:"fatal,omitempty"`
@@ -76,6 +81,7 @@ func (c *c20Case) Exec() {
 	if rio.FileHeader != nil {
 		c.Version = rio.FileHeader.Version
 		c.KComp = int(rio.FileHeader.CompressionType)
+		c.EnumKsy, c.EnumGo = schemaNamesCompression(c.KComp)
 	}
 	for _, r := range rio.Record {
 		if r == nil || r.UncompressedPayloadLen == nil || r.CompressedPayloadLen == nil {
@@ -107,6 +113,9 @@ func (c *c20Case) Oracle() (bool, string) {
 	}
 	if c.Version != 4 || c.KComp != c.Comp {
 		return false, "file header decoded differently"
+	}
+	if !c.EnumKsy || !c.EnumGo {
+		return false, fmt.Sprintf("the writer emitted compression code %d, which the compression enum of the schema does not name (ksy: %v, generated Go: %v)", c.KComp, c.EnumKsy, c.EnumGo)
 	}
 	if len(c.KRecs) != len(c.Recs) {
 		return false, fmt.Sprintf("kaitai decoded %d records, %d were written", len(c.KRecs), len(c.Recs))
@@ -193,4 +202,30 @@ func init() {
 		New:  func() Case { return &c20Case{} },
 		Rule: "files of 0-7 records (nil, empty, adversarial payloads up to 3000 bytes; 1 MiB in the thorough tier) under each of the 4 compression types, written by the real writer and parsed by the generated Kaitai reader; compared record by record with the file bytes and the native reader. Non-trivial: >=2 records.",
 	})
+}
+
+// schemaNamesCompression: is the code a member of the compression enum in kaitai/recordio_v4.ksy and among the
+// generated constants of kaitai/gokaitai/recordio_v4.go (both read from /repo's working tree)
+func schemaNamesCompression(code int) (bool, bool) {
+	inKsy, inGo := false, false
+	if data, err := os.ReadFile(filepath.Join(repoRoot, "kaitai", "recordio_v4.ksy")); err == nil {
+		src := string(data)
+		if i := strings.Index(src, "enums:"); i >= 0 {
+			re := regexp.MustCompile(`(?m)^\s+(\d+):\s*([A-Za-z_][A-Za-z0-9_]*)\s*$`)
+			for _, m := range re.FindAllStringSubmatch(src[i:], -1) {
+				if v, _ := strconv.Atoi(m[1]); v == code {
+					inKsy = true
+				}
+			}
+		}
+	}
+	if data, err := os.ReadFile(filepath.Join(repoRoot, "kaitai", "gokaitai", "recordio_v4.go")); err == nil {
+		re := regexp.MustCompile(`(?m)^\s*RecordioV4_Compression__\w+\s+RecordioV4_Compression\s*=\s*(\d+)`)
+		for _, m := range re.FindAllStringSubmatch(string(data), -1) {
+			if v, _ := strconv.Atoi(m[1]); v == code {
+				inGo = true
+			}
+		}
+	}
+	return inKsy, inGo
 }
